@@ -7,14 +7,14 @@ WHAT = 'ThreadPool destruction / resize / setSignalingWake complete for every wo
 def run(ctx):
     thorough = ctx.tier == 'thorough'
     ctx.check_model(pc.SPEC, 'MCPool.tla', 'MC_del.cfg', WHAT, label='destructor at every point of 2 workers loops (no time-outs, deadlock check)',
-                    workers=8, vacuity_exempt=VAC)
+                    workers=8, required=('TpStop', 'PwAllReadMask', 'TpRzJoined', 'FutexWait', 'FutexWake'))
     ctx.check_model(pc.SPEC, 'MCPool.tla', 'MC_q2_basic.cfg', WHAT, label='a submission, then the destructor; claimed-but-not-woken sleepers '
-                    '(no time-outs, deadlock check)', workers=8, vacuity_exempt=VAC, timeout=1500)
+                    '(no time-outs, deadlock check)', workers=8, required=('TpStop', 'PwAllReadMask', 'TpRzJoined', 'FutexWait', 'FutexWake'), timeout=1500)
     if thorough:
         ctx.check_model(pc.SPEC, 'MCPool.tla', 'MC_q_basic.cfg', WHAT, label='fq, sched, destructor (no time-outs)', workers=12,
-                        vacuity_exempt=VAC, timeout=3000, heap='16g')
+                        required=('TpStop', 'PwAllReadMask', 'TpRzJoined', 'FutexWait', 'FutexWake'), timeout=3000, heap='16g')
         ctx.check_model(pc.SPEC, 'MCPool.tla', 'MC_resize.cfg', WHAT, label='resize 2->1->2, destructor (no time-outs)',
-                        workers=8, vacuity_exempt=VAC, timeout=2400)
+                        workers=8, required=('TpStop', 'PwAllReadMask', 'TpRzJoined', 'FutexWait', 'FutexWake'), timeout=2400)
     progs = [(2, 'main:new2,del'), (2, 'main:new3,idle,del'), (2, 'main:new2,resize1,resize3,del'),
              (4, 'main:new3,rbulk1.3,resize2,del'), (2, 'main:new2,wake0,wake1,del'), (2, 'main:new1,resize0,resize2,del'), (2, 'main:new2,idle,fq1,del'), (2, 'main:new2,idle,fq1,idle,fq2,del')]
     if thorough:
